@@ -271,6 +271,8 @@ DUTIES = {
                      "every collection walks the whole intern table and drops the entries whose string is unmarked: the object sweep that follows frees those strings (the full sweep also tenured ones), and an entry left behind hands out a dangling LyStr the next time the same contents are interned"),
     "scan-roots": (r"^laythe_vm::vm::hooks::<impl laythe_vm::vm::Vm>::scan_roots$", r"Fiber::scan_roots$", None,
                    "Vm::scan_roots re-points the fiber's stack every time it is asked to: a stale reference to a moved list can arrive on the stack (from a module variable, a capture, a channel) long after the last growth, so no memo of 'nothing grew' may skip the scan"),
+    "stack-depth": (r"^laythe_vm::compiler::peephole::peephole_compile$", r"::apply_stack_effects$", None,
+                    "every function's slot maximum and handler depths come from the label-aware scan apply_stack_effects (judged by F3): a cheaper scan for 'simple' functions is a second, unjudged implementation (a `continue` drops locals that the code after the backward Loop still has)"),
 }
 
 
@@ -302,6 +304,8 @@ def unconditional_duties(rec, F, which):
             if b in seen or b in duty:
                 continue
             seen.add(b)
+            if any(st["r"]["k"] == "agg" and st["r"]["adt"].endswith("Result::Err") for st in fn.blocks[b]["s"]):
+                continue    # a path that reports an error instead of finishing the job
             if fn.blocks[b]["t"]["k"] == "return":
                 leak = b
                 break
